@@ -436,6 +436,7 @@ def prop_C16(run):
     rules_cond.arm_reader_rules(run)
     rules_cond.prepass_loop_rules(run)
     rules_cond.nested_include_rule(run)
+    rules_cond.define_value_source(run)         # a -d number is parsed by the language's literal parser
     rules_cond.early_binding_rule(run)         # names bound during the pre-pass wait for pending #if blocks (F76)
     rules_mpt.pipeline(run)
     import rules_sym as _rs
